@@ -155,7 +155,7 @@ Proof. unfold is_unit, q_unit, v3norm2, v3dot, qdot; cbn. repeat split; lra. Qed
 
 (* ---- gradient = tangent derivative for unit vectors and quaternions.
    Non-singularity guards (explicit):
-     uv_nonsingular v1 v2 :=  -1 < v1.v2 < 1  /\  (v1.v2 <= 0 \/ 1e-28 <= 1 - (v1.v2)^2)
+     uv_nonsingular v1 v2 :=  -1 < v1.v2 < 1  /\  1e-28 <= 1 - (v1.v2)^2
         (not coincident, not antipodal, and outside the implementation's null-gradient threshold);
      q_nonsingular q1 q2  :=  -1 < q1.q2 < 1  /\  q1.q2 <> 0  /\  1e-14 <= sqrt(1 - (q1.q2)^2)
         (not equivalent, not at the switch of the shorter geodesic, outside the null-gradient threshold).
@@ -587,3 +587,13 @@ Proof.
   split; [exact E1|]. split; [exact E2|]. apply hw_distance_cases; exact HP.
 Qed.
 Print Assumptions C18_walls_on_periodic_variable.
+
+(* ---- unit vectors at the two singular geometries (coincident, exactly opposite): the reported gradient is the null vector, so a
+   restraint centred exactly opposite to the value applies a zero force, never an infinite or undefined one (after the repair) ---- *)
+Theorem C18_unitvector_null_gradient_at_singular_geometries : forall (k w : R) (a b : vec3),
+  (v3dot Rops a b = 1 \/ v3dot Rops a b = -1 -> uv_grad Rops a b = (0, 0, 0)) /\
+  (is_unit a ->
+   hr_force Rops PI k w KUnit (V3 a) (V3 (v3scale Rops (-1) a)) =
+     Some (V3 (- (1 / 2) * k / (w * w) * 0, - (1 / 2) * k / (w * w) * 0, - (1 / 2) * k / (w * w) * 0))).
+Proof. intros k w a b. split; [apply uv_grad_singular | intros Ha; apply (hr_unit_singular_force k w a Ha)]. Qed.
+Print Assumptions C18_unitvector_null_gradient_at_singular_geometries.
